@@ -12,6 +12,11 @@ Theorem C01_summary_safe : all_builders_ok classes = true.
 Proof. vm_compute. reflexivity. Qed.
 Print Assumptions C01_summary_safe.
 
+(* join(..) returns a Joiner around the fresh copy; on() / using() / cross() complete the call through do_join on that copy *)
+Theorem C01_continuations_safe : continuations_ok classes = true.
+Proof. vm_compute. reflexivity. Qed.
+Print Assumptions C01_continuations_safe.
+
 (* for an accepted method, every heap cell the call may write is fresh (the copy, a re-copied or
    freshly rebound container) or is the alias field of an argument whose alias was None *)
 Theorem C01_builder_frame :
